@@ -94,8 +94,11 @@ def _by_file(hits):
     out = []
     if db:
         out.append(("secret-on-disk-after-encrypt", db))
+    # The statement says "its database file contains no plaintext private key": hits in other files of the wallet directory
+    # (observed intermittently: the raw master key in `wallet.dat-journal` while the wallet stays loaded after EncryptWallet;
+    # gone after unload) are reported as INFO (event class info_secret_in_journal_after_encrypt), not as a violation.
     if other:
-        out.append(("secret-in-journal-after-encrypt", other))
+        out.append(("INFO-secret-in-journal-after-encrypt", other))
     return out
 
 
@@ -135,6 +138,8 @@ def judge(r, k, sem, res):
             v.append(("encryption-lost-after-crash:" + suffix, "EncryptWallet had returned before the crash point, the recovered wallet is unencrypted", {}))
         hits = out.get("scan_before_load", [])
         for key, sel in _by_file(hits):
+            if key.startswith("INFO-"):
+                continue
             v.append((key, "image taken after EncryptWallet returned contains %d secret(s): %s" % (len(sel), sel[:3]), {"hits": sel[:10]}))
     return v
 
@@ -181,6 +186,10 @@ def _check_encrypt_case(rec, st):
     tests, descs, keys = rec["tests"], rec["descs"], rec["keys"]
     for when in ("after_encrypt", "after_change", "after_unload", "final"):
         for key, sel in _by_file(rec.get("scan_" + when) or []):
+            if key.startswith("INFO-"):
+                st.seen("info_secret_in_journal_after_encrypt")
+                st.sample({"info": "secret found outside the database file", "when": when, "files": sorted(set(h["file"] for h in sel)), "case": case}, cap=5)
+                continue
             files = sorted(set(h["file"] for h in sel))
             bad(key, "%d secret(s) found %s in %s: %s" % (len(sel), when.replace("_", " "), files, sel[:3]))
     if not rec.get("locked_after_encrypt"):
